@@ -1158,8 +1158,98 @@ def gen_interp(out, parts):
         T.fail(INTERP, fn, "scatter_faces_to_corners: `cattr[c] = fattr[F]` changed")
 
 
+
+# ------------------------------------------------------------------------------------------------ signatures (fail closed)
+# (file, function) -> (decorators, [(parameter, default)]) exactly as the drivers / theorems assume them.  A memoising or
+# otherwise unknown decorator, a mutable default, a re-ordered or renamed parameter breaks the tie.
+SIGNATURES = {
+    (AV, "degree"): (["forbidden_mesh_types(PointCloud)"], [("mesh", None), ("name", "'degree'"), ("persistent", "True"), ("dense", "True")]),
+    (AV, "angle_defects"): (["allowed_mesh_types(SurfaceMesh)"], [("mesh", None), ("zero_border", "False"), ("name", "'angleDefect'"), ("persistent", "True"), ("dense", "True")]),
+    (AV, "vertex_normals"): (["allowed_mesh_types(SurfaceMesh)"], [("mesh", None), ("name", "'normals'"), ("persistent", "True"), ("interpolation", "'area'"), ("dense", "True"), ("custom_fnormals", "None")]),
+    (AE, "edge_length"): (["forbidden_mesh_types(PointCloud)"], [("mesh", None), ("name", "'length'"), ("persistent", "True"), ("dense", "True")]),
+    (AE, "edge_middle_point"): (["forbidden_mesh_types(PointCloud)"], [("mesh", None), ("name", "'middle'"), ("persistent", "True"), ("dense", "True")]),
+    (AE, "cotan_weights"): (["allowed_mesh_types(SurfaceMesh)"], [("mesh", None), ("name", "'cotan_weight'"), ("persistent", "True"), ("dense", "True")]),
+    (AF, "face_area"): (["allowed_mesh_types(SurfaceMesh, VolumeMesh)"], [("mesh", None), ("name", "'area'"), ("persistent", "True"), ("dense", "True")]),
+    (AF, "face_normals"): (["allowed_mesh_types(SurfaceMesh)"], [("mesh", None), ("name", "'normals'"), ("persistent", "True"), ("dense", "True")]),
+    (AF, "face_barycenter"): (["allowed_mesh_types(SurfaceMesh, VolumeMesh)"], [("mesh", None), ("name", "'barycenter'"), ("persistent", "True"), ("dense", "True")]),
+    (AF, "face_circumcenter"): (["allowed_mesh_types(SurfaceMesh, VolumeMesh)"], [("mesh", None), ("name", "'circumcenter'"), ("persistent", "True"), ("dense", "True")]),
+    (AC, "corner_angles"): (["allowed_mesh_types(SurfaceMesh)"], [("mesh", None), ("name", "'angles'"), ("persistent", "True"), ("dense", "True")]),
+    (AC, "cotangent"): (["allowed_mesh_types(SurfaceMesh)"], [("mesh", None), ("name", "'cotan'"), ("persistent", "True"), ("dense", "True")]),
+    (ACE, "cell_volume"): (["allowed_mesh_types(VolumeMesh)"], [("mesh", None), ("name", "'volume'"), ("persistent", "True"), ("dense", "True")]),
+    (ACE, "cell_barycenter"): (["allowed_mesh_types(VolumeMesh)"], [("mesh", None), ("name", "'barycenter'"), ("persistent", "True"), ("dense", "True")]),
+    (GLOB, "euler_characteristic"): (["allowed_mesh_types(SurfaceMesh)"], [("mesh", None)]),
+    (GLOB, "mean_edge_length"): (["forbidden_mesh_types(PointCloud)"], [("mesh", None), ("n", "None")]),
+    (GLOB, "mean_face_area"): (["allowed_mesh_types(SurfaceMesh, VolumeMesh)"], [("mesh", None), ("n", "None")]),
+    (GLOB, "mean_cell_volume"): (["allowed_mesh_types(VolumeMesh)"], [("mesh", None), ("n", "None")]),
+    (GLOB, "total_area"): (["allowed_mesh_types(SurfaceMesh)"], [("mesh", None)]),
+    (GLOB, "barycenter"): ([], [("mesh", None)]),
+    (INTERP, "interpolate_vertices_to_faces"): (["forbidden_mesh_types(PointCloud, PolyLine)"], [("mesh", None), ("vattr", None), ("fattr", None)]),
+    (INTERP, "interpolate_faces_to_vertices"): (["allowed_mesh_types(SurfaceMesh)"], [("mesh", None), ("fattr", None), ("vattr", None), ("weight", "'uniform'")]),
+    (INTERP, "scatter_vertices_to_corners"): (["allowed_mesh_types(SurfaceMesh)"], [("mesh", None), ("vattr", None), ("cattr", None)]),
+    (INTERP, "average_corners_to_vertices"): (["allowed_mesh_types(SurfaceMesh)"], [("mesh", None), ("cattr", None), ("vattr", None), ("weight", "'uniform'")]),
+    (INTERP, "scatter_faces_to_corners"): (["allowed_mesh_types(SurfaceMesh)"], [("mesh", None), ("fattr", None), ("cattr", None)]),
+    (INTERP, "average_corners_to_faces"): (["allowed_mesh_types(SurfaceMesh)"], [("mesh", None), ("cattr", None), ("fattr", None), ("weight", "'uniform'")]),
+    (GEOM, "norm"): ([], [("x", None), ("which", "'l2'")]),
+    (GEOM, "dot"): ([], [("A", None), ("B", None)]),
+    (GEOM, "distance"): ([], [("A", None), ("B", None), ("which", "'l2'")]),
+    (GEOM, "cross"): ([], [("A", None), ("B", None)]),
+    (GEOM, "cotan"): ([], [("A", None), ("B", None), ("C", None)]),
+    (GEOM, "angle_3pts"): ([], [("A", None), ("B", None), ("C", None)]),
+    (GEOM, "triangle_area"): ([], [("A", None), ("B", None), ("C", None)]),
+    (GEOM, "quad_area"): ([], [("A", None), ("B", None), ("C", None), ("D", None)]),
+    (GEOM, "det_2x2"): ([], [("A", None), ("B", None)]),
+    (GEOM, "det_3x3"): ([], []),
+    (GEOM, "face_basis"): ([], []),
+    (GEOM, "intersect_2lines2D"): ([], [("p1", None), ("d1", None), ("p2", None), ("d2", None)]),
+    (GEOM, "circumcenter"): ([], [("v1", None), ("v2", None), ("v3", None)]),
+}
+# attribute functions whose persistent branch must CREATE (never fetch) the attribute they fill: container it lives on
+CREATES = {(AV, "degree"): "mesh.vertices", (AV, "angle_defects"): "mesh.vertices", (AV, "vertex_normals"): "mesh.vertices",
+           (AE, "edge_length"): "mesh.edges", (AE, "edge_middle_point"): "mesh.edges", (AE, "cotan_weights"): "mesh.edges",
+           (AF, "face_area"): "mesh.faces", (AF, "face_normals"): "mesh.faces", (AF, "face_barycenter"): "mesh.faces",
+           (AF, "face_circumcenter"): "mesh.faces", (AC, "corner_angles"): "mesh.face_corners",
+           (ACE, "cell_volume"): "mesh.cells", (ACE, "cell_barycenter"): "mesh.cells"}
+
+
+def check_signatures(parts):
+    trees = {}
+    for (rel, name), (decos, params) in sorted(SIGNATURES.items()):
+        if rel not in trees:
+            trees[rel] = T.load(rel)
+        src, tree = trees[rel]
+        fn = T.find_def(tree, name, rel)
+        got_d = [ast.unparse(d) for d in fn.decorator_list]
+        if got_d != decos:
+            T.fail(rel, fn, "%s: decorators %s, expected %s" % (name, got_d, decos))
+        a = fn.args
+        if a.kwonlyargs or a.kwarg or a.posonlyargs:
+            T.fail(rel, fn, "%s: unexpected keyword-only / ** / positional-only parameters" % name)
+        names = [x.arg for x in a.args]
+        defaults = [None] * (len(names) - len(a.defaults)) + list(a.defaults)
+        for dn in a.defaults:
+            if not isinstance(dn, ast.Constant):      # a list / dict / set / call default would be shared between calls
+                T.fail(rel, dn, "%s: a parameter default is not an immutable constant" % name)
+        got_p = [(n, None if d is None else ast.unparse(d)) for n, d in zip(names, defaults)]
+        if got_p != params:
+            T.fail(rel, fn, "%s: parameters %s, expected %s" % (name, got_p, params))
+        if (rel, name) in CREATES:
+            cont = CREATES[(rel, name)]
+            ok = False
+            for st in T.body_nodoc(fn):
+                if isinstance(st, ast.If) and (T.dotted(st.test) == "persistent" or seg_is(src, st.test, "persistent")):
+                    b0 = st.body[0] if st.body else None
+                    ok = (len(st.body) == 1 and isinstance(b0, ast.Assign) and isinstance(b0.value, ast.Call)
+                          and T.dotted(b0.value.func) == cont + ".create_attribute"
+                          and b0.value.args and T.dotted(b0.value.args[0]) == "name")
+                    break
+            if not ok:
+                T.fail(rel, fn, "%s: `if persistent:` does not simply create the attribute with %s.create_attribute(name, ...)" % (name, cont))
+    parts.append(("signatures/decorators/defaults/creation sites of %d anchored functions" % len(SIGNATURES), "pinned"))
+
+
 def gen():
     parts = []
+    check_signatures(parts)
     geo, att, itp = [], [], []
     gen_geometry(geo, parts)
     gen_circumcenter(geo, parts)
